@@ -2,7 +2,7 @@
    used to accept a message with a required member missing from an entry that is not the last one (fixed in /repo;
    the model follows the repaired code). *)
 From Coq Require Import ZArith List Bool String.
-From QF Require Import Base.Res Base.Bytes Dict.Xml Dict.Build Dict.Validate Dict.ValidateSpec Dict.ValidateInst Dict.ValidateProofs.
+From QF Require Import Base.Res Base.Bytes Dict.Xml Dict.Build Dict.Validate Dict.ValidateSpec Dict.ValidateInst Dict.ValidateProofs Dict.ValidateGroups.
 Import ListNotations.
 Open Scope Z_scope.
 Open Scope string_scope.
@@ -78,3 +78,13 @@ Lemma v_ex_group_witness :
   c15_conforms v_ex_settings v_ex_dict v_ex_dict v_ex_group_missing_last = false /\
   validate v_ex_settings (Some v_ex_dict) None v_ex_group_missing_last = Ok (Some (RR_REQUIRED_TAG_MISSING, Some 103)).
 Proof. vm_compute. repeat split; reflexivity. Qed.
+
+Lemma v_ex_group_hyp :
+  c15_config (Some v_ex_dict) None (B "X") v_ex_dict v_ex_dict /\
+  (exists md, dict_bget (B "X") (dd_messages v_ex_dict) = Some md /\ c15_wf_defsb v_ex_dict md = true) /\
+  c15_conforms v_ex_settings v_ex_dict v_ex_dict v_ex_group_ok = true.
+Proof.
+  split; [constructor|]. split; [|vm_compute; reflexivity].
+  destruct (dict_bget (B "X") (dd_messages v_ex_dict)) as [md|] eqn:E; [|vm_compute in E; discriminate].
+  exists md. split; [reflexivity|]. vm_compute in E. injection E as <-. vm_compute. reflexivity.
+Qed.
